@@ -299,6 +299,27 @@ pub fn install_panic_hook() {
     }));
 }
 
+/// For the libFuzzer target: keep recording panic message and location (cases classify panics of the code under
+/// test through `guarded`) but leave the default printing in place so that a real crash is visible.
+pub fn install_panic_hook_passthrough() {
+    let default = std::panic::take_hook();
+    std::panic::set_hook(Box::new(move |info| {
+        let msg = if let Some(s) = info.payload().downcast_ref::<&str>() {
+            s.to_string()
+        } else if let Some(s) = info.payload().downcast_ref::<String>() {
+            s.clone()
+        } else {
+            "<non-string panic>".to_string()
+        };
+        let loc = info.location().map(|l| format!("{}:{}", l.file(), l.line())).unwrap_or_default();
+        let is_verdict = msg.starts_with("VIOLATION") || msg.starts_with("HARNESS");
+        LAST_PANIC.with(|p| *p.borrow_mut() = Some((msg, loc)));
+        if is_verdict {
+            default(info);
+        }
+    }));
+}
+
 pub fn take_panic() -> Option<(String, String)> {
     LAST_PANIC.with(|p| p.borrow_mut().take())
 }
@@ -476,6 +497,10 @@ fn run_case(
             if stats.counting {
                 if let Some(h) = nt {
                     stats.nontrivial.insert(h);
+                    // last resort: a case the property did not describe itself is recorded by its (replayable) tape
+                    if stats.samples.is_empty() {
+                        stats.samples.push(json!({"section": section, "replayable_tape": tape.iter().take(64).collect::<Vec<_>>(), "note": "non-trivial case recorded by its choice tape (dsverif replay accepts it)"}));
+                    }
                 }
             }
             CaseOutcome::Ok
@@ -1086,6 +1111,25 @@ pub fn check(p: &Property, tier: Tier, seed: u64, only: Option<&str>) -> i32 {
         wall
     );
     0
+}
+
+/// One libFuzzer iteration: runs the case for `tape`; a violation that is not a listed known finding panics (so the
+/// fuzzer saves the input), known findings and discards are tolerated so that the campaign continues behind them.
+pub fn fuzz_one(p: &Property, section: &str, tape: &[u32]) {
+    let sec = match p.sections.iter().find(|s| s.name == section) {
+        Some(s) => s,
+        None => panic!("unknown section {}", section),
+    };
+    thread_local! {
+        static KNOWN: Known = Known::load();
+    }
+    let mut st = Stats::default();
+    let outcome = KNOWN.with(|k| run_case(p.id, sec.name, sec.case, tape, &mut st, k, false));
+    match outcome {
+        CaseOutcome::Ok => {}
+        CaseOutcome::Violation(f) => panic!("VIOLATION property={} section={} signature={} detail={}", p.id, section, f.signature, f.detail),
+        CaseOutcome::HarnessError(e) => panic!("HARNESS ERROR: {}", e),
+    }
 }
 
 pub fn replay(p: &Property, section: &str, tape: &[u32]) -> i32 {
